@@ -781,3 +781,65 @@ def regions(cs, vs):
         for x in vs[1]:
             out |= regions(cs[1], x)
     return out
+
+
+def py_satisfies(cs, o):
+    """INDEPENDENT reference semantics of the schema vocabulary (what the documentation of each constraint says),
+    used by the C02 oracle instead of the implementation's own checkObject"""
+    cs = norm_cs(cs)
+    k = cs[0]
+    if k == "any" or k == "opt":
+        return True
+    if k in ("int", "number"):
+        if k == "number" and isinstance(o, float):
+            return True
+        if isinstance(o, bool) or not isinstance(o, int):
+            return False
+        mb = cs[1]
+        if mb is None:
+            return True
+        if mb == -1:
+            return -2 ** 31 <= o < 2 ** 31
+        return abs(o) < 2 ** (8 * mb)
+    if k in ("bytes", "text"):
+        if not isinstance(o, bytes if k == "bytes" else str):
+            return False
+        return (cs[1] is None or len(o) <= cs[1]) and len(o) >= cs[2]
+    if k == "bool":
+        return type(o) is bool and (cs[1] is None or o == cs[1])
+    if k == "none":
+        return o is None
+    if k == "list":
+        return isinstance(o, list) and (cs[2] is None or len(o) <= cs[2]) and len(o) >= cs[3] and all(py_satisfies(cs[1], x) for x in o)
+    if k == "tuple":
+        return isinstance(o, tuple) and len(o) == len(cs[1]) and all(py_satisfies(c, x) for c, x in zip(cs[1], o))
+    if k == "dict":
+        return isinstance(o, dict) and (cs[3] is None or len(o) <= cs[3]) and \
+            all(py_satisfies(cs[1], a) and py_satisfies(cs[2], b) for a, b in o.items())
+    if k == "set":
+        if not isinstance(o, (set, frozenset)):
+            return False
+        if cs[3] is True and not isinstance(o, set):
+            return False
+        if cs[3] is False and not isinstance(o, frozenset):
+            return False
+        return (cs[2] is None or len(o) <= cs[2]) and all(py_satisfies(cs[1], x) for x in o)
+    if k == "choice":
+        return any(py_satisfies(c, o) for c in cs[1])
+    raise ValueError(cs)
+
+
+def py_args_ok(argspec, args, kwargs):
+    """reference semantics of a method schema: argspec [(name, cs, optional)]"""
+    names = [n for n, _, _ in argspec]
+    if len(args) > len(names):
+        return False
+    bound = dict(zip(names, args))
+    for n, v in kwargs.items():
+        if n in bound or n not in names:
+            return False
+        bound[n] = v
+    by = {n: cs for n, cs, _ in argspec}
+    if not all(py_satisfies(by[n], v) for n, v in bound.items()):
+        return False
+    return all(opt or n in bound for n, _, opt in argspec)
